@@ -3,14 +3,16 @@ import copy
 import html
 import re
 
-from harness.core import Property
+from harness.core import Property, CaseTimeout
 from harness.props import markup_common as mc
 from harness.props.markup_common import S, B, I
 
 VOIDS = ["area", "base", "br", "col", "embed", "hr", "img", "input", "link", "meta", "param", "source", "track", "wbr"]
 NAMES = ["a", "b", "c", "x_y", "_", "a_", "_b", "0", "1", "é", "n m", 'q"<', "f", "name", "a__b", "İ", "l", "d", "-", "x.y:z"]
 TEXTS = ["", "x", "hello", "a b", " padded ", "1", "0", "on", "q r", 'say "hi" <b>&amp;', "éK", "\n\tx", "p", "A-b_c:d.e", "%s",
-         " x ", "v1"]
+         " x ", "v1", "a  b", "\nx", "N/A", "-- none --"]
+CHECK_TYPES_MIXED = ["CHECKBOX", "Radio", "Checkbox", "RADIO"]
+SECRET_MIXED = ["Password", "FILE"]
 TEXTLIKE = ["text", "hidden", "submit", "", "email", "TEXT", "search", "tel"]
 SECRET = ["password", "file", "image"]
 ID_INVALID = re.compile(r"[^A-Za-z0-9_:.\-]")
@@ -30,12 +32,35 @@ def _rand_leaf(rng, name, form_mode=False):
     if r < 0.86:
         tru = rng.choice(["1", "1", "yes", "T"])
         return {"t": "bool", "name": name, "true": tru, "u": rng.choice([tru, ""] if form_mode else [tru, "", "zzz"])}
+    return _rand_array(rng, name)
+
+
+JOINED_MEMBERS = ["a", "b", "x", "hello", "q r", "1", "on", "p", 'q"<', "é"]
+
+
+def _rand_array(rng, name, flavour=None):
+    """Array of String; flavours: plain Array, MultiValue (scalar-like u = first member), JoinedString (an Array
+    subclass that is ONE flattenable leaf whose text is the members joined by ',')"""
+    flavour = flavour or rng.choice(["array", "array", "array", "multi", "joined"])
+    if flavour == "joined":
+        ms = [rng.choice(JOINED_MEMBERS) for _ in range(rng.randint(0, 3))]
+        return {"t": "array", "flavour": "joined", "name": name, "strip": True, "members": ms}
     strip = rng.random() < 0.5
     ms = []
     for _ in range(rng.randint(0, 3)):
         m = rng.choice(TEXTS)
         ms.append(m.strip() if strip else m)
-    return {"t": "array", "name": name, "strip": strip, "members": ms}
+    return {"t": "array", "flavour": flavour, "name": name, "strip": strip, "members": ms}
+
+
+def shown_of(node):
+    """`.u` of an Array-like element bound as a whole (an input of the model)"""
+    fl = node.get("flavour", "array")
+    if fl == "joined":
+        return ",".join(node["members"])
+    if fl == "multi":
+        return (node["members"][0] or "") if node["members"] else ""
+    return mc.array_u(node["members"])
 
 
 def _rand_tree(rng, depth, name, form_mode=False):
@@ -64,8 +89,8 @@ def _revalue(rng, t, form_mode=False):
         elif n["t"] == "bool":
             n["u"] = rng.choice([n["true"], ""] if form_mode else [n["true"], "", "zzz"])
         elif n["t"] == "array":
-            ms = [rng.choice(TEXTS) for _ in range(rng.randint(0, 3))]
-            n["members"] = [m.strip() if n["strip"] else m for m in ms]
+            n["members"] = _rand_array(rng, None, n.get("flavour", "array"))["members"] if n.get("flavour") == "joined" else [
+                (m.strip() if n["strip"] else m) for m in [rng.choice(TEXTS) for _ in range(rng.randint(0, 3))]]
         elif n["t"] == "dict":
             for f in n["fields"]:
                 go(f)
@@ -109,7 +134,13 @@ def schema_of(t, template=None):
     elif k == "bool":
         cls = fl.Boolean.using(true=t["true"])
     elif k == "array":
-        cls = fl.Array.of(fl.String.using(strip=t["strip"]))
+        flavour = t.get("flavour", "array")
+        if flavour == "joined":
+            cls = fl.JoinedString
+        elif flavour == "multi":
+            cls = fl.MultiValue.of(fl.String.using(strip=t["strip"]))
+        else:
+            cls = fl.Array.of(fl.String.using(strip=t["strip"]))
     elif k == "dict":
         cls = fl.Dict.of(*[schema_of(f) for f in t["fields"]])
     else:
@@ -140,7 +171,7 @@ def navigate(root, t, sel):
             el = el[i]
         elif node["t"] == "array":
             el = el[i]
-            node = {"t": "leaf", "name": None, "u": node["members"][i] or ""}
+            node = {"t": "leaf", "name": None, "u": node["members"][i] or "", "member_of": node.get("flavour", "array")}
         else:
             raise IndexError("selector descends below a leaf")
     return el, node
@@ -160,6 +191,24 @@ def array_shown(tree, renders):
 
 # ------------------------------------------------------------------ browser rule (Python, independent of Lean)
 
+_ASCII_WS = " \t\n\x0c\r"
+
+
+def collapse_ws(s):
+    """WHATWG 'strip and collapse ASCII whitespace' (what an <option> without value= posts from its text)"""
+    out = []
+    pending = False
+    for c in s:
+        if c in _ASCII_WS:
+            pending = bool(out)
+        else:
+            if pending:
+                out.append(" ")
+            pending = False
+            out.append(c)
+    return "".join(out)
+
+
 def posted_of(el, select_name=None):
     a = {}
     for k, v in el["attrs"]:
@@ -167,7 +216,7 @@ def posted_of(el, select_name=None):
     tag = el["tag"]
     if tag == "option":
         if select_name and "selected" in a:
-            return [select_name, a["value"] if "value" in a else el["text"].strip()]
+            return [select_name, a["value"] if "value" in a else collapse_ws(el["text"])]
         return None
     name = a.get("name")
     if not name:
@@ -178,7 +227,9 @@ def posted_of(el, select_name=None):
             return [name, a.get("value", "on")] if "checked" in a else None
         return [name, a.get("value", "")]
     if tag == "textarea":
-        return [name, el["text"]]
+        # the HTML parser drops one newline right after the start tag (html.parser does not)
+        text = el["text"]
+        return [name, text[1:] if text.startswith("\n") else text]
     if tag == "button":
         return [name, a.get("value", "")]
     return None
@@ -208,6 +259,8 @@ def render_all(case):
                 out = out()
             res["out"] = str(out)
         except AssertionError:
+            raise
+        except CaseTimeout:
             raise
         except Exception as e:  # noqa
             res["err"] = type(e).__name__
@@ -240,6 +293,15 @@ def _control_for(rng, node, form_mode=False):
     out = []
     k = node["t"]
     r = rng.random()
+    if k == "array" and node.get("flavour") == "joined":
+        # ONE flattenable leaf (an Array subclass): its flat pair is (name, members joined by ',')
+        if form_mode or r < 0.4:
+            return [("input", [["type", S(rng.choice(["text", "hidden"]))]], "value", {})]
+        lits = list(dict.fromkeys([shown_of(node)] + list(node["members"]) + [rng.choice(TEXTS)]))
+        if r < 0.75:
+            ty = rng.choice(["checkbox", "radio"])
+            return [("input", [["type", S(ty)], ["value", S(l)]], "check", {"lit": l}) for l in lits]
+        return [("select", [], "select", {})] + [("option", [["value", S(l)]], "option", {"lit": l}) for l in lits]
     if k == "array":
         if form_mode:
             lits = [(m if m is not None else "") for m in node["members"]]     # one checkbox per member occurrence
@@ -249,10 +311,18 @@ def _control_for(rng, node, form_mode=False):
         if rng.random() < 0.3:
             # <select multiple> bound to the Array, one option per literal
             out.append(("select", [["multiple", S("multiple")]], "select", {}))
+            if not form_mode and rng.random() < 0.5:
+                # the usual placeholder: explicit empty value, non-empty body
+                out.append(("option", [["value", S("")], ["contents", S(rng.choice(["-- none --", "N/A", "L"]))]], "option", {"lit": ""}))
             for lit in lits:
-                out.append(("option", [["value", S(lit)]], "option", {"lit": lit}))
+                kw = [["value", S(lit)]]
+                if not form_mode and rng.random() < 0.4:
+                    kw.append(["contents", S(html.escape(rng.choice([lit, "label", "L", ""]), quote=False))])
+                out.append(("option", kw, "option", {"lit": lit}))
             return out
         ty = "checkbox" if form_mode or rng.random() < 0.7 else "radio"
+        if not form_mode and rng.random() < 0.08:
+            ty = rng.choice(CHECK_TYPES_MIXED)
         for lit in lits:
             out.append(("input", [["type", S(ty)], ["value", S(lit)]], "check", {"lit": lit}))
         return out
@@ -265,7 +335,8 @@ def _control_for(rng, node, form_mode=False):
         ty = rng.choice(TEXTLIKE)
         kw = [["type", S(ty)]] if ty or rng.random() < 0.5 else []
         return [("input", kw, "value", {})]
-    if r < 0.40:
+    if r < 0.40 and not (form_mode and node["u"].startswith("\n")):
+        # (form mode: a text starting with a newline is KF-C12-f, witnessed by the single-control cases)
         return [("textarea", [], "value", {})]
     if r < 0.50:
         return [("button", [], "value", {})]
@@ -273,15 +344,24 @@ def _control_for(rng, node, form_mode=False):
         # a radio group: the literal equal to u plus decoys
         lits = list(dict.fromkeys([node["u"], rng.choice(TEXTS), rng.choice(TEXTS)]))
         rng.shuffle(lits)
-        return [("input", [["type", S("radio")], ["value", S(l)]], "check", {"lit": l}) for l in lits]
+        ty = "radio" if form_mode or rng.random() < 0.9 else rng.choice(CHECK_TYPES_MIXED)
+        return [("input", [["type", S(ty)], ["value", S(l)]], "check", {"lit": l}) for l in lits]
     if r < 0.80:
         # select + options (value= or contents=)
         lits = list(dict.fromkeys([node["u"], rng.choice(TEXTS), rng.choice(TEXTS)]))
         rng.shuffle(lits)
         res = [("select", [], "select", {})]
+        if not form_mode and rng.random() < 0.4:
+            # the usual placeholder / "none" choice: explicit empty value, non-empty body (sometimes the element's text)
+            body = rng.choice([node["u"] or "-- none --", "-- none --", "N/A"])
+            res.append(("option", [["value", S("")], ["contents", S(html.escape(body, quote=False))]], "option", {"lit": ""}))
         for l in lits:
-            if form_mode or rng.random() < 0.6:
+            if form_mode or rng.random() < 0.45:
                 res.append(("option", [["value", S(l)]], "option", {"lit": l}))
+            elif rng.random() < 0.3:
+                # value= and a body that says something else (or the element's text)
+                body = rng.choice([node["u"], "label", l, ""])
+                res.append(("option", [["value", S(l)], ["contents", S(html.escape(body, quote=False))]], "option", {"lit": l}))
             else:
                 # the option's text: author markup, written the way an author writes text (escaped)
                 pad = rng.choice(["", " ", "\n "])
@@ -297,7 +377,7 @@ def _control_for(rng, node, form_mode=False):
         # a control whose name is overridden by the author: only the label pairing is checked
         return [("input", [["type", S("text")], ["name", S(rng.choice(["other", "x y", ""]))]], "named", {})]
     if r < 0.93:
-        return [("input", [["type", S(rng.choice(SECRET))]] + ([["auto_value", rng.choice([B(True), S("on")])]] if rng.random() < 0.4 else []),
+        return [("input", [["type", S(rng.choice(SECRET + SECRET_MIXED))]] + ([["auto_value", rng.choice([B(True), S("on")])]] if rng.random() < 0.4 else []),
                  "value", {})]
     return [("input", [["type", S("checkbox")], ["value", S(node["u"] if rng.random() < 0.5 else rng.choice(TEXTS))]], "check", None)]
 
@@ -375,7 +455,7 @@ def _fix_arr_shown(case):
                 ok = False
                 break
         if ok and node["t"] == "array":
-            r["arr_shown"] = mc.array_u(node["members"])
+            r["arr_shown"] = shown_of(node)
     return case
 
 
@@ -392,6 +472,9 @@ class C12(Property):
         "Flatland.C12.Proofs.posts_flat_pair_textarea",
         "Flatland.C12.Proofs.checked_iff",
         "Flatland.C12.Proofs.checked_iff_array",
+        "Flatland.C12.Proofs.checked_iff_boolean",
+        "Flatland.C12.Proofs.selected_iff",
+        "Flatland.C12.Proofs.transform_frame",
         "Flatland.C12.Proofs.label_raw_eq_control_raw",
         "Flatland.C12.Proofs.label_targets",
         "Flatland.C12.Proofs.submitted_orderPairs",
@@ -401,9 +484,14 @@ class C12(Property):
     ]
     generated_obligations = []
     level_text = "proof"
-    level_note = ("partial: password/file/image inputs are excluded (KF-C12-a, refuted for the full statement by C12_full_fails); "
-                  "option/select, and the form round trip through from_flat/flatten (C01), rest on "
-                  "correspondence and the oracle")
+    level_note = ("partial.  PROVED (model of the transforms + browser rule): text-like input / button / textarea carry (flat name, u) "
+                  "[textarea: minus one leading LF, KF-C12-f]; checkbox/radio with a literal (scalar, Boolean, Array-of-String binds), "
+                  "Boolean checkbox without literal, <option value=lit> selected iff match (any bind kind) and what it posts inside a "
+                  "named select; label for = control id for <input> controls.  EXCLUDED BY FINDINGS: password/file/image "
+                  "(KF-C12-a, refuted by C12_full_fails), options without value= (KF-C12-b/e), mixed-case type (KF-C12-c), "
+                  "JoinedString binds (KF-C12-d).  ORACLE/CORRESPONDENCE ONLY: that the <select> itself carries the flat name, "
+                  "label for = id for textarea/button controls, MultiValue binds, the whole-form round trip through "
+                  "from_flat/flatten (C01's functions)")
     technique = ("symbolic evaluation of the transform pipeline under Enabled/Disabled contexts + frame lemmas; browser "
                  "successful-control rule as a function; order-independence of the rule under attribute sorting")
     trusted_base = [
@@ -413,7 +501,12 @@ class C12(Property):
     assumptions = [
         "one whole-Array bind per case at most (its repr-style display text is an input of the model)",
         "Array members are String elements; List members share one member schema",
-        "browsers' newline normalisation in textarea/attribute values is not modelled (html.parser keeps text verbatim)",
+        "the browser is html.parser + the successful-control rule + two HTML-parser/WHATWG details (one LF dropped after "
+        "<textarea>; option text stripped and collapsed on ASCII whitespace).  NOT modelled: CR/CRLF -> LF normalisation of the "
+        "input stream, newline stripping in text inputs, CRLF normalisation on submission, NUL -> U+FFFD: element texts "
+        "containing CR/LF/NUL in text-like inputs are 'posted unchanged' relative to that",
+        "leaf kinds: String, Integer, Boolean, Array of String, MultiValue of String, JoinedString (DateYYYYMMDD, Enum, SparseDict "
+        "of C01's trees are not generated here: their leaves are scalars of the kinds above as far as the transforms can tell)",
     ]
     rule = ("element trees (Dict/List/Array/String/Integer/Boolean, depth <= 3, names containing the separator, quotes, spaces, "
             "non-ASCII, digit-only names, anonymous members), every bindable leaf; control kinds: text-like inputs, textarea, "
@@ -422,6 +515,7 @@ class C12(Property):
             "posted pairs to from_flat.  non-trivial = some control posts a pair or is deliberately unchecked; distinct = distinct "
             "canonical case JSON")
     quick_n = 40000
+    case_timeout = 60      # the machine is shared: a stalled worker must not look like a hang of the library
     thorough_n = 300000
 
     # ------------------------------------------------------------------ cases
@@ -461,6 +555,38 @@ class C12(Property):
                       "tree": {"t": "dict", "name": "f", "fields": [{"t": "leaf", "name": "a", "py": "str", "u": "a & b"}]},
                       "renders": [rd([0], "select", [], "select"),
                                   rd([0], "option", [["contents", S("a &amp; b")]], "option", within=0, lit="a & b", from_contents=True)]})
+        def one(u, renders, settings=(), extra_fields=()):
+            return {"markup": "xhtml", "settings": list(settings), "form_mode": False,
+                    "tree": {"t": "dict", "name": "f", "fields": [{"t": "leaf", "name": "a", "py": "str", "u": u}] + list(extra_fields)},
+                    "renders": renders}
+        # seeded mutation C12-option-empty-value-falsy: the placeholder option (explicit value="", non-empty body)
+        cases.append(one("", [rd([0], "select", [], "select"),
+                              rd([0], "option", [["value", S("")], ["contents", S("-- none --")]], "option", within=0, lit=""),
+                              rd([0], "option", [["value", S("x")], ["contents", S("X")]], "option", within=0, lit="x")]))
+        cases.append(one("N/A", [rd([0], "select", [], "select"),
+                                 rd([0], "option", [["value", S("")], ["contents", S("N/A")]], "option", within=0, lit=""),
+                                 rd([0], "option", [["value", S("N/A")], ["contents", S("n/a")]], "option", within=0, lit="N/A")]))
+        cases.append(one("x", [rd([1], "select", [["multiple", S("multiple")]], "select"),
+                               rd([1], "option", [["value", S("")], ["contents", S("none")]], "option", within=0, lit=""),
+                               rd([1], "option", [["value", S("L")], ["contents", S("large")]], "option", within=0, lit="L")],
+                         extra_fields=[{"t": "array", "flavour": "array", "name": "sizes", "strip": False, "members": ["", "L"]}]))
+        # open KF-C12-c: type compared case-sensitively
+        cases.append(one("hello", [rd([0], "input", [["type", S("CHECKBOX")], ["value", S("hello")]], "check", lit="hello"),
+                                   rd([0], "label", [["value", S("hello")]], "label", pair=0)],
+                         settings=[["auto_domid", B(True)], ["auto_for", B(True)]]))
+        # open KF-C12-d: JoinedString matched by member, not by its text
+        cases.append(one("x", [rd([1], "input", [["type", S("checkbox")], ["value", S("a,b")]], "check", lit="a,b"),
+                               rd([1], "input", [["type", S("checkbox")], ["value", S("a")]], "check", lit="a")],
+                         extra_fields=[{"t": "array", "flavour": "joined", "name": "j", "strip": True, "members": ["a", "b"]}]))
+        # open KF-C12-e: option text with inner double blank / NBSP padding
+        cases.append(one("a  b", [rd([0], "select", [], "select"),
+                                  rd([0], "option", [["contents", S("a  b")]], "option", within=0, lit="a b", from_contents=True)]))
+        # open KF-C12-f: textarea text starting with a newline
+        cases.append(one("\nx", [rd([0], "textarea", [], "value")]))
+        # MultiValue: members are flat pairs of their own
+        cases.append(one("x", [rd([1], "input", [["type", S("checkbox")], ["value", S("q")]], "check", lit="q"),
+                               rd([1], "input", [["type", S("text")]], "value")],
+                         extra_fields=[{"t": "array", "flavour": "multi", "name": "m", "strip": True, "members": ["p", "q"]}]))
         return [_fix_arr_shown(c) for c in cases]
 
     def generate(self, rng, n, tier):
@@ -512,16 +638,24 @@ class C12(Property):
                 want = [name, el.u]
                 if posted != want:
                     fails.append({"clause": "posts-flat-pair", "render": i, "expected": want, "observed": posted,
-                                  "markup": res["out"], "type": dict((k, v.get("v")) for k, v in r["kwargs"]).get("type")})
+                                  "markup": res["out"], "type": dict((k, v.get("v")) for k, v in r["kwargs"]).get("type"),
+                                  "name": name, "u": el.u})
             elif role in ("check", "option"):
                 lit = r.get("lit")
                 import flatland
                 is_checkbox = dict((k, v.get("v")) for k, v in r["kwargs"]).get("type") == "checkbox"
                 if lit is None and isinstance(el, flatland.Boolean) and is_checkbox:
                     lit = el.true          # documented: the missing value= is added from Boolean.true
+                kwd = dict((k, v) for k, v in r["kwargs"])
+                if role == "option" and "value" not in kwd:
+                    # the literal value of an option without value= is what a browser reads from its text
+                    lit = collapse_ws(res["parsed"]["text"])
                 if lit is None:
                     continue       # a checkbox/radio without any value: outside "their literal value matches"
-                if isinstance(el, flatland.Array):
+                if isinstance(el, flatland.JoinedString):
+                    # an Array subclass, but ONE flattenable leaf: its text is the joined string
+                    want_on = (lit == el.u)
+                elif isinstance(el, flatland.Array):
                     strip = el.member_schema.strip
                     want_on = any(m.value == (lit.strip() if strip else lit) for m in el)
                 else:
@@ -539,14 +673,14 @@ class C12(Property):
                     want = [name, lit] if want_on else None
                 if posted != want:
                     fails.append({"clause": "checked-iff-matches", "render": i, "expected": want, "observed": posted,
-                                  "markup": res["out"]})
+                                  "markup": res["out"], "name": name, "lit": lit, "u": el.u})
             elif role == "label":
                 ctl = results[r["pair"]]
                 if ctl["parsed"] is None:
                     continue
                 if res.get("for") != ctl.get("id"):
                     fails.append({"clause": "label-targets-control", "render": i, "expected": ctl.get("id"), "observed": res.get("for"),
-                                  "markup": [ctl["out"], res["out"]]})
+                                  "markup": [ctl["out"], res["out"]], "pair": r["pair"]})
         if case.get("form_mode"):
             # closing the loop with C01: what the browser posts rebuilds the element's own flat pairs
             # (relative to from_flat(flatten()), so that C01's pruning findings do not leak into this check)
@@ -558,29 +692,122 @@ class C12(Property):
         return fails
 
     def classify(self, case, failure):
-        fid = self._classify_a(case, failure)
-        return fid or self._classify_b(case, failure)
+        for fn in (self._classify_a, self._classify_option_text, self._classify_c, self._classify_d, self._classify_f):
+            fid = fn(case, failure)
+            if fid:
+                return fid
+        return None
 
-    def _classify_b(self, case, failure):
-        """KF-C12-b: an <option> whose value comes from contents= is compared as the markup it was given, not as the
-        text a browser reads from it.  Class: option render without value=, contents (stripped) differ from their
-        character-reference-decoded form, and the observed selection is exactly `contents.strip() == u`."""
+    def _classify_option_text(self, case, failure):
+        """KF-C12-b / KF-C12-e: an <option> whose value comes from contents= is matched using `contents.strip()` (the
+        markup, Python whitespace), not the text a browser reads from it (references decoded, ASCII whitespace stripped
+        and collapsed).  Class: option render without value=; the two readings differ; the option is selected exactly
+        when `contents.strip() == u`; and if selected, what is posted is exactly (flat name, the browser's reading).
+        b: the readings differ because of a character reference; e: only because of whitespace."""
         if failure.get("clause") != "checked-iff-matches" or not isinstance(failure.get("render"), int):
             return None
         r = case["renders"][failure["render"]]
         kw = dict((k, v) for k, v in r["kwargs"])
         if r["tag"] != "option" or "value" in kw or "contents" not in kw or kw["contents"]["t"] not in ("s", "m"):
             return None
-        raw = kw["contents"]["v"].strip()
-        if html.unescape(raw) == raw:
+        code_reading = kw["contents"]["v"].strip()
+        browser_reading = collapse_ws(html.unescape(kw["contents"]["v"]))
+        if code_reading == browser_reading:
             return None
-        # what the code is known to do: select iff the markup text equals u
-        u = self._bind_u(case, r)
-        if u is None:
+        u, name = failure.get("u"), failure.get("name")
+        if u is None or name is None or failure.get("lit") != browser_reading:
             return None
-        code_selects = (raw == u)
-        observed_selected = failure.get("observed") is not None
-        return "KF-C12-b" if code_selects == observed_selected else None
+        predicted = [name, browser_reading] if code_reading == u else None
+        if failure.get("observed") != predicted:
+            return None
+        if failure.get("expected") != ([name, browser_reading] if browser_reading == u else None):
+            return None
+        return "KF-C12-b" if html.unescape(code_reading) != code_reading else "KF-C12-e"
+
+    @staticmethod
+    def _type_of(r):
+        t = dict((k, v) for k, v in r["kwargs"]).get("type")
+        return t.get("v") if t and t.get("t") in ("s", "m") else None
+
+    def _classify_c(self, case, failure):
+        """KF-C12-c: `type` is compared case-sensitively: <input type="CHECKBOX"/"Radio"> is a check control for a
+        browser but a text-like input for flatland (never checked, no id suffix).  Class: input whose type is not
+        lower case and lower-cases to checkbox/radio; the control posts nothing although its literal matches, or the
+        paired label's for= is the control's id plus the sanitised literal."""
+        i = failure.get("render")
+        if not isinstance(i, int):
+            return None
+        r = case["renders"][i]
+        if failure.get("clause") == "checked-iff-matches":
+            ty = self._type_of(r)
+            if r["tag"] == "input" and ty and ty != ty.lower() and ty.lower() in ("checkbox", "radio") \
+                    and failure.get("observed") is None and failure.get("expected") == [failure.get("name"), failure.get("lit")]:
+                return "KF-C12-c"
+            return None
+        if failure.get("clause") == "label-targets-control" and isinstance(failure.get("pair"), int):
+            ctl = case["renders"][failure["pair"]]
+            ty = self._type_of(ctl)
+            if ctl["tag"] == "input" and ty and ty != ty.lower() and ty.lower() in ("checkbox", "radio"):
+                lit = dict((k, v) for k, v in r["kwargs"]).get("value", {}).get("v", "")
+                sfx = ID_INVALID.sub("", lit)
+                exp, obs = failure.get("expected"), failure.get("observed")
+                if exp is not None and obs is not None and sfx and obs == self._with_suffix(case, exp, sfx):
+                    return "KF-C12-c"
+        return None
+
+    @staticmethod
+    def _with_suffix(case, control_id, sfx):
+        """the id the control would have had with the literal's suffix, for the case's domid_format"""
+        fmt = "f_%s"
+        for k, v in case["settings"]:
+            if k == "domid_format":
+                fmt = v["v"]
+        head, _, tail = fmt.partition("%s")
+        if not control_id.startswith(head) or (tail and not control_id.endswith(tail)):
+            return None
+        raw = control_id[len(head): len(control_id) - len(tail) if tail else None]
+        return head + raw + "_" + sfx + tail
+
+    def _bind_node(self, case, r):
+        node = case["tree"]
+        for i in r["sel"] or []:
+            if node["t"] == "dict":
+                node = node["fields"][i]
+            elif node["t"] == "list":
+                node = node["members"][i]
+            elif node["t"] == "array":
+                return {"t": "leaf", "u": node["members"][i] or ""}
+        return node
+
+    def _classify_d(self, case, failure):
+        """KF-C12-d: a JoinedString is an Array subclass, so check controls and options bound to it are matched
+        against its MEMBERS, not against its text (its one flat pair).  Class: check/option render bound to a
+        JoinedString; posted is (flat name, literal) exactly when the stripped literal is one of the members."""
+        i = failure.get("render")
+        if failure.get("clause") != "checked-iff-matches" or not isinstance(i, int):
+            return None
+        r = case["renders"][i]
+        node = self._bind_node(case, r)
+        if node.get("t") != "array" or node.get("flavour") != "joined" or r["role"] not in ("check", "option"):
+            return None
+        lit, name = failure.get("lit"), failure.get("name")
+        if lit is None or name is None:
+            return None
+        predicted = [name, lit] if lit.strip() in node["members"] else None
+        return "KF-C12-d" if failure.get("observed") == predicted else None
+
+    def _classify_f(self, case, failure):
+        """KF-C12-f: a <textarea> whose text starts with a newline loses that newline in a browser (the HTML parser
+        drops one LF after the start tag; the generator does not emit a protective one).  Class: textarea value
+        render, u starts with LF, posted == (flat name, u without the first LF)."""
+        i = failure.get("render")
+        if failure.get("clause") != "posts-flat-pair" or not isinstance(i, int):
+            return None
+        r = case["renders"][i]
+        u, name = failure.get("u"), failure.get("name")
+        if r["tag"] != "textarea" or not isinstance(u, str) or not u.startswith("\n"):
+            return None
+        return "KF-C12-f" if failure.get("observed") == [name, u[1:]] else None
 
     def _bind_u(self, case, r):
         node = case["tree"]
@@ -601,7 +828,7 @@ class C12(Property):
         r = case["renders"][failure["render"]]
         kw = dict((k, v) for k, v in r["kwargs"])
         ty = kw.get("type", {}).get("v")
-        if r["tag"] != "input" or not isinstance(ty, str) or ty not in SECRET:
+        if r["tag"] != "input" or not isinstance(ty, str) or ty.lower() not in SECRET:
             return None
         av = kw.get("auto_value")
         forced = av is not None and (av.get("v") is True or (isinstance(av.get("v"), str) and av["v"].lower() in ("1", "true", "t", "on", "yes")))
